@@ -36,6 +36,7 @@ type unitCfg struct {
 	Backend string     `json:"backend"`
 	Entries []entryCfg `json:"entries"`
 	Stubs   map[string]string `json:"stubs"`
+	NoSched []string          `json:"nosched_pkgs"`
 }
 
 type checkCfg struct {
@@ -65,6 +66,7 @@ type replayFile struct {
 	Model    map[string]uint64 `json:"model"`
 	Sched    []int             `json:"sched,omitempty"`
 	Params   map[string]int    `json:"params,omitempty"`
+	NoSched  []string          `json:"nosched,omitempty"`
 	Decisions string           `json:"decisions,omitempty"`
 	Where    string            `json:"where,omitempty"`
 }
@@ -232,6 +234,7 @@ func runCheck(id, tier, filter string) int {
 			}
 			cfg.InlineGo = e.InlineGo
 			cfg.Stubs = u.Stubs
+			cfg.NoSchedPkgs = u.NoSched
 			cfg.Params = e.Quick
 			if tier == "thorough" && e.Thorough != nil {
 				cfg.Params = map[string]int{}
@@ -303,7 +306,7 @@ func runCheck(id, tier, filter string) int {
 					continue
 				}
 				seen[v.Label] = true
-				cases = append(cases, nativeCase{Entry: e.Name, Model: v.Model, Sched: v.Sched, Params: cfg.Params})
+				cases = append(cases, nativeCase{Entry: e.Name, Model: v.Model, Sched: v.Sched, Params: cfg.Params, NoSched: u.NoSched})
 				metas = append(metas, caseMeta{entry: e.Name, viol: v, report: ri, params: cfg.Params})
 			}
 			nS := 6
@@ -315,7 +318,7 @@ func runCheck(id, tier, filter string) int {
 					break
 				}
 				s := &res.Samples[i]
-				cases = append(cases, nativeCase{Entry: e.Name, Model: s.Model, Sched: s.Sched, Params: cfg.Params})
+				cases = append(cases, nativeCase{Entry: e.Name, Model: s.Model, Sched: s.Sched, Params: cfg.Params, NoSched: u.NoSched})
 				metas = append(metas, caseMeta{entry: e.Name, sample: s, report: ri, params: cfg.Params})
 			}
 			if len(samples) < 12 {
@@ -482,7 +485,7 @@ func writeReplay(id string, u unitCfg, entry, label string, v *sym.Violation, pa
 	dir := filepath.Join(verifRoot, "replay", id)
 	os.MkdirAll(dir, 0o755)
 	name := fmt.Sprintf("%s-%s.json", entry, sanitize(label))
-	rf := replayFile{Property: id, Pkg: u.Pkg, Harness: u.Harness, Entry: entry, Label: label, Kind: v.Kind, Msg: v.Msg, Model: v.Model, Sched: v.Sched, Params: params, Decisions: v.Decisions, Where: v.Where}
+	rf := replayFile{NoSched: u.NoSched, Property: id, Pkg: u.Pkg, Harness: u.Harness, Entry: entry, Label: label, Kind: v.Kind, Msg: v.Msg, Model: v.Model, Sched: v.Sched, Params: params, Decisions: v.Decisions, Where: v.Where}
 	data, _ := json.MarshalIndent(rf, "", " ")
 	p := filepath.Join(dir, name)
 	os.WriteFile(p, data, 0o644)
@@ -530,7 +533,7 @@ func cmdReplay(path string) int {
 		entries = []string{rf.Entry}
 	}
 	var log bytes.Buffer
-	res, err := runNative("/repo", rf.Pkg, harness, entries, []nativeCase{{Entry: rf.Entry, Model: rf.Model, Sched: rf.Sched, Params: rf.Params}}, nil, &log)
+	res, err := runNative("/repo", rf.Pkg, harness, entries, []nativeCase{{Entry: rf.Entry, Model: rf.Model, Sched: rf.Sched, Params: rf.Params, NoSched: rf.NoSched}}, nil, &log)
 	if err != nil {
 		fmt.Println("replay failed to run:", err)
 		return 2
